@@ -35,7 +35,7 @@ REC = GE + "evaluation/recorder.py"
 # (id, property, file, old, new, note)
 MUTANTS = [
     ("m01a", "C01", INIT, "    elif starting_symbol is bool:\n        return decider.random_bool()", "    elif starting_symbol is bool:\n        return int(decider.random_bool())", "bool field built from an int"),
-    ("m01b", "C01", INIT, "vals = tuple(create_node(global_context, t, context, {}) for t in types)", "vals = list(create_node(global_context, t, context, {}) for t in types)", "tuple field built as a list"),
+    ("m01b", "C01", INIT, "vals = tuple(create_node(global_context, t, context, dependent_values) for t in types)", "vals = list(create_node(global_context, t, context, dependent_values) for t in types)", "tuple field built as a list"),
     ("m01c", "C01", STACK, "                    dependent_values[argn] = arg\n                    args.append(arg)", "                    dependent_values[argn] = arg\n                    args.append(arg if len(args) < 2 else None)", "stack mapper leaves the third field unset (None)"),
     ("m02a", "C02", GE + "grammar/metahandlers/ints.py", "        return random.randint(self.min, self.max)\n\n    def validate(self, v) -> bool:\n        return self.min <= v <= self.max", "        return random.randint(self.min, self.max + 1)\n\n    def validate(self, v) -> bool:\n        return self.min <= v <= self.max", "IntRange.generate off by one at the top"),
     ("m02b", "C02", GE + "grammar/metahandlers/lists.py", "        size = random.randint(self.min, self.max)\n        li = []\n        for i in range(size):\n            nv = rec(inner_type)\n            li.append(nv)\n        return GengyList(inner_type, li)", "        size = random.randint(self.min, self.max + 1)\n        li = []\n        for i in range(size):\n            nv = rec(inner_type)\n            li.append(nv)\n        return GengyList(inner_type, li)", "ListSizeBetweenWithoutListOperations draws one element too many"),
@@ -53,7 +53,7 @@ MUTANTS = [
     ("m05d", "C05", GRAM, "                elif is_generic_list(ty) or is_annotated(ty):\n                    yield from explode_generics([get_generic_parameter(ty)])", "                elif is_annotated(ty):\n                    yield from explode_generics([get_generic_parameter(ty)])", "reachability stops at lists (recursion through lists missed)"),
     ("m06a", "C06", GEF, "        c1 = parent1.dna[:rindex] + parent2.dna[rindex:]", "        c1 = parent1.dna[:rindex] + parent2.dna[rindex + 1 :] + parent2.dna[rindex : rindex + 1]", "GE crossover shifts loci"),
     ("m06b", "C06", SGEF, "        dna[rkey][rindex] = random.randint(0, sys.maxsize)\n        return Genotype(dna)", "        dna[rkey][rindex] = random.randint(0, sys.maxsize)\n        dna[rkey][rindex - 1] = random.randint(0, sys.maxsize)\n        return Genotype(dna)", "SGE mutation rewrites two genes"),
-    ("m06c", "C06", STACK, "        clone = [i for i in genotype.dna]\n        clone[rindex] = random.randint(0, 10000)\n        return Genotype(clone)", "        clone = [i for i in genotype.dna]\n        clone[rindex] = random.randint(0, 10000)\n        return Genotype(clone[:-1])", "stack mutation changes the length"),
+    ("m06c", "C06", STACK, "        return Genotype(clone)\n\n    def crossover(", "        return Genotype(clone[:-1])\n\n    def crossover(", "stack mutation changes the length"),
     ("m06d", "C06", GE + "representations/tree/treebased.py", "                return global_context.decider.choose_options(options, i.gengy_synthesis_context)", "                return create_node(global_context, ty, i.gengy_synthesis_context, dependent_values)", "tree crossover ignores the donor material (concrete start symbol too)"),
     ("m07a", "C07", GEF, "        if hasattr(decider, \"random\"):\n            decider.random = rand", "        if False:\n            decider.random = rand", "GE decider draws from the shared RNG again"),
     ("m07b", "C07", DSGEF, "        v = self.decider.read(RandomSource)\n        return v % (max - min + 1) + min", "        v = self.decider.genotype.random.randint(0, MAX_GENE_VALUE)\n        return v % (max - min + 1) + min", "dSGE metahandler draws come from the shared RNG"),
@@ -81,7 +81,7 @@ MUTANTS = [
     ("m13d", "C13", GE + "evaluation/api.py", "        self.count += 1", "        self.count += 1 if self.count % 7 else 2", "evaluation counter double counts now and then"),
     ("m14a", "C14", GE + "evaluation/budget.py", "        return tracker.get_number_evaluations() >= self.evaluations_budget", "        return tracker.get_number_evaluations() > self.evaluations_budget", "evaluation budget needs one more evaluation"),
     ("m14b", "C14", GE + "evaluation/budget.py", "        return self.a.is_done(tracker) or self.b.is_done(tracker)", "        return self.a.is_done(tracker) and self.b.is_done(tracker)", "AnyOf behaves as AllOf"),
-    ("m14c", "C14", GE + "evaluation/budget.py", "        comps = best.get_fitness(tracker.get_problem()).fitness_components\n        if isinstance(self.value, float):\n            return abs(comps[0] - self.value) < 0.0001", "        comps = [best.get_fitness(tracker.get_problem()).maximizing_aggregate]\n        if isinstance(self.value, float):\n            return abs(comps[0] - self.value) < 0.0001", "target compared with the maximising aggregate"),
+    ("m14c", "C14", GE + "evaluation/budget.py", "        comps = best.get_fitness(tracker.get_problem()).fitness_components\n        # the best fitness is at the target", "        comps = [best.get_fitness(tracker.get_problem()).maximizing_aggregate]\n        # the best fitness is at the target", "target compared with the maximising aggregate"),
     ("m15a", "C15", COMB, "        indices[-1] = target_size  # the slices always add up to the target, whatever the rounding did\n", "", "last slice no longer patched to the target"),
     ("m15b", "C15", GE + "algorithms/gp/operators/crossover.py", "        if (target_size // 2) * 2 < target_size:\n            yield npopulation[0]", "        if (target_size // 2) * 2 < target_size and target_size > 3:\n            yield npopulation[0]", "crossover forgets the odd slot for small targets"),
     ("m15c", "C15", GE + "representations/tree/operators.py", "                target_size - len(injected),", "                target_size - len(injected) + 1,", "inject wrapper tops up one too many"),
